@@ -819,7 +819,8 @@ class C13(Spec):
                   '/ the escaped text); C13_inline_tag (for every pre / post over letters, digits, blank, full stop and comma and every tag name of '
                   'letters and digits, spans.render of pre<name>post is pre . F . post with F what the policy makes of the tag: the policies differ '
                   'at the tag and nowhere else, the surrounding text is rendered identically -- the tag is located with the exact regex semantics, '
-                  'swapped for a placeholder before the quotes pass and restored after it). Non-interference for arbitrary surrounding markup is '
+                  'swapped for a placeholder before the quotes pass and restored after it); C13_tag_document (end to end: the one-line document '
+                  'pre<name>post renders to <p>pre F post</p>, session unchanged). Non-interference for arbitrary surrounding markup is '
                   'not proved; decided by the alignment oracle and full-HTML correspondence at modes 1,2,3 + {0,4,8,12}.')
     rule = ('token-soup sources rendered at modes 1,2,3 + {0,4,8,12} with a fresh sentinel replacement; outputs aligned around sentinel '
             'occurrences modulo newlines; non-trivial = source contains an HTML element')
@@ -1157,7 +1158,8 @@ class C07(ExpectSpec):
                   'C07_emphasis_match_unique (real markup: for every pre, body, post over the plain alphabet, body starting and ending with a '
                   'non-space, spans.render of pre*body*post is escape pre <em> escape body </em> escape post -- the quote match is pinned down '
                   'with the exact regex semantics: every derivation of the generated quote pattern on *body*post ends in one state, and the '
-                  'complete matcher finds it). The full product grammar (quotes '
+                  'complete matcher finds it); C07_emphasis_document (the same end to end: the one-line document pre*body*post renders to '
+                  '<p>pre<em>body</em>post</p>, session unchanged). The full product grammar (quotes '
                   'x replacements x adjacency) is decided by the generator-predicted-HTML oracle and full-HTML correspondence, not proved.')
     rule = ('paragraphs from an inline grammar (words, isolated specials, 7 built-in + 2 defined quotes nested by differing delimiter to '
             'depth 3, the replacement forms with URL/caption words) in modes 0,1,4,9; expected HTML built with the AST; '
